@@ -228,9 +228,12 @@ def stretch_instid(toks, ctx, R, k, lim):
     n = _size(k)
     if lim.cap("instance-id-digits", n) is None:
         return None
+    zeros = (k % 2 == 0)
+    if not zeros and lim.cap("instance-id-value", 10 ** 10) is None:      # n random digits: a value far beyond 2^31
+        return None
     t = list(toks)
-    t[i] = "#" + _filler(R, n, "0123456789" if k % 2 else "0") + (toks[i][1:] if k % 3 == 0 else "")
-    return _join(t), {"cls": ["stretch", "stretch-instance-id"], "size": n}
+    t[i] = "#" + _filler(R, n, "0" if zeros else "0123456789") + (toks[i][1:] if zeros or k % 3 == 0 else "")
+    return _join(t), {"cls": ["stretch", "stretch-instance-id"], "size": n, "where": "leading-zeros" if zeros else "digits"}
 
 
 def stretch_ident(toks, ctx, R, k, lim):
@@ -551,8 +554,12 @@ def ids(toks, ctx, R, k, lim):
         return None
     t = list(toks)
     i = _pick(R, c)
-    t[i] = _pick(R, ["#0", "#2147483647", "#2147483648", "#4294967296", "#99999999999999999999", "#-1", "#", "# 1", "#1", "#00000000001",
-                     toks[_pick(R, c)]])
+    new = _pick(R, ["#0", "#2147483646", "#2147483647", "#2147483648", "#4294967296", "#99999999999999999999", "#-1", "#", "# 1", "#1",
+                    "#00000000001", toks[_pick(R, c)]])
+    m = re.match(r"#(\d+)$", new)
+    if m and lim.cap("instance-id-value", int(m.group(1))) is None:
+        return None
+    t[i] = new
     return _join(t), {"cls": ["instance-ids"]}
 
 
